@@ -193,4 +193,6 @@ func main() {
 	}
 	// large.go: inputs around k·64 KiB, 1 MiB and k·4 KiB (own PRNG stream)
 	largeSizes(o, hlib.NewRng(*hlib.FlagSeed, "c04/sizes"))
+	// collide.go: keysets in which a RAW key's tag starts with another member's output prefix (own PRNG stream)
+	runCollide(o, hlib.NewRng(*hlib.FlagSeed, "c04/collide"))
 }
